@@ -799,6 +799,12 @@ pub enum TypeAltS {
     RenameValue(String, String),
 }
 
+/// call order of if_not_exists (0) / before (1) / after (2) on `Type::alter().add_value(..)`
+pub fn add_value_call_order(a: &TypeAltS) -> [u8; 3] {
+    const ORDERS: [[u8; 3]; 6] = [[0, 1, 2], [0, 2, 1], [1, 0, 2], [1, 2, 0], [2, 0, 1], [2, 1, 0]];
+    ORDERS[(crate::runner::fingerprint(a) % 6) as usize]
+}
+
 #[derive(Clone, Debug, PartialEq, Eq, Hash, Serialize, Deserialize)]
 pub enum StmtS {
     CreateTable(TableS),
@@ -995,14 +1001,25 @@ impl StmtS {
                 let s = match action {
                     TypeAltS::Add { value, if_not_exists, before, after } => {
                         let mut s = s.add_value(al(value));
-                        if *if_not_exists {
-                            s = s.if_not_exists();
-                        }
-                        if let Some(b) = before {
-                            s = s.before(al(b));
-                        }
-                        if let Some(a) = after {
-                            s = s.after(al(a));
+                        // the three modifiers in one of their six call orders (a function of the action)
+                        for step in add_value_call_order(action) {
+                            match step {
+                                0 => {
+                                    if *if_not_exists {
+                                        s = s.if_not_exists();
+                                    }
+                                }
+                                1 => {
+                                    if let Some(b) = before {
+                                        s = s.before(al(b));
+                                    }
+                                }
+                                _ => {
+                                    if let Some(a) = after {
+                                        s = s.after(al(a));
+                                    }
+                                }
+                            }
                         }
                         s
                     }
@@ -1181,8 +1198,14 @@ impl StmtS {
                 name: name.parts(),
                 action: match action {
                     TypeAltS::Add { value, if_not_exists, before, after } => {
-                        // `after` replaces an earlier `before` (one placement field)
-                        let (b, a) = if after.is_some() { (None, after.clone()) } else { (before.clone(), None) };
+                        // one placement field: of `before` and `after` the one called later stays
+                        let order = add_value_call_order(action);
+                        let after_last = order.iter().position(|x| *x == 2) > order.iter().position(|x| *x == 1);
+                        let (b, a) = match (before, after) {
+                            (Some(_), Some(_)) if after_last => (None, after.clone()),
+                            (Some(_), Some(_)) => (before.clone(), None),
+                            _ => (before.clone(), after.clone()),
+                        };
                         TypeAction::AddValue { if_not_exists: *if_not_exists, value: value.clone(), before: b, after: a }
                     }
                     TypeAltS::RenameTo(n) => TypeAction::RenameTo(n.clone()),
